@@ -296,6 +296,10 @@ def mc_pager(res, pid, tier):
     cfg = os.path.join(res.wd, "MC_Pager.cfg")
     body = "SPECIFICATION Spec\nCONSTANTS\n  MergeMode = \"%s\"\n  L = %d\n  ParseAtLeast = 3\n  TryParseAtMost = 250\n" \
            "INVARIANT ClosedOK\nINVARIANT NotMoreStates\nINVARIANT NoNewConflict\nINVARIANT LanguageOK\nCHECK_DEADLOCK FALSE\n"
+    if pid == "C02":
+        # merging is C02's subject (closure, number of states, no new conflict); the language of
+        # the resulting table is C01's
+        body = body.replace("INVARIANT LanguageOK\n", "")
     with open(cfg, "w") as f:
         f.write(body % ("pager", L))
     r = core.run_tlc("MC_Pager", cfg, dict(GRAMMARS=gf), res.wd, timeout=3000, workers=12 if tier == "thorough" else 8, heap="10g")
